@@ -16,16 +16,115 @@ def MarkOK (T : Tables) : Prop := IdB T 63
 /-- the token text of a key with or without its mark -/
 def tokB (km : Bytes × Bool) : Bytes := if km.2 then km.1 ++ [63] else km.1
 
-/-- one step of a path: a key (with or without `?`) or a call without arguments -/
+/-- a literal argument: a string or a truth value -/
+inductive Arg where
+  | s (a : Bytes)
+  | b (v : Bool)
+
+def wordTrue : Bytes := [116, 114, 117, 101]
+def wordFalse : Bytes := [102, 97, 108, 115, 101]
+
+def Arg.text : Arg → Bytes
+  | .s a => 34 :: (Mp.escape a ++ [34])
+  | .b true => wordTrue
+  | .b false => wordFalse
+
+def Arg.param : Arg → Param
+  | .s a => .str a
+  | .b v => .bool v
+
+def Arg.OK : Arg → Prop
+  | .s a => Lit a
+  | .b _ => True
+
+/-- what follows an argument up to and including the closing parenthesis: `)` or `,next…)` -/
+def sepArgs : List Arg → Bytes
+  | [] => [41]
+  | a :: t => 44 :: (a.text ++ sepArgs t)
+
+/-- the argument list with its closing parenthesis -/
+def argsText : List Arg → Bytes
+  | [] => [41]
+  | a :: t => a.text ++ sepArgs t
+
+
+/-- what the tables must say for literal arguments: the comma is printable, the letters of `true` and `false` are identifier bytes -/
+structure ArgOK (T : Tables) : Prop where
+  comma : T.isPrint 44 = true
+  word : ∀ b ∈ wordTrue ++ wordFalse, IdB T b
+
+theorem not_ident_44 (T : Tables) : isIdentRune T 44 = false := by
+  have : (44 : Nat) ∈ invalidRunes := by decide
+  simp [isIdentRune, this]
+
+theorem scan_comma (T : Tables) (hA : ArgOK T) (s : Sc) (e : Nat) (t : Bytes) (hprep : sxPrep s = mkS [] e (44 :: t)) (ha : Asc t) :
+    scan T s = (.rune 44, mkS [44] e t) := by
+  unfold scan mScan sxScan
+  rw [hprep]
+  unfold sxBody
+  have h1 : isIdentRune T 44 = false := not_ident_44 T
+  have hc : (mkS [] e (44 :: t)).ch = 44 := rfl
+  have hn := mkS_next [] e 44 t ha
+  simp only [List.nil_append] at hn
+  simp only [hc, hn]
+  simp [h1, hA.comma]
+
+theorem asc_argText (a : Arg) (h : a.OK) : Asc a.text := by
+  cases a with
+  | s x =>
+    intro b hb
+    simp only [Arg.text, List.mem_cons, List.mem_append] at hb
+    rcases hb with rfl | hb | hb
+    · exact ⟨by decide, by decide⟩
+    · exact asc_escape x h b hb
+    · have : b = 34 := by simpa using hb
+      subst this; exact ⟨by decide, by decide⟩
+  | b v =>
+    intro x hx
+    cases v with
+    | true =>
+      simp only [Arg.text, wordTrue, List.mem_cons, List.not_mem_nil, or_false] at hx
+      rcases hx with rfl | rfl | rfl | rfl <;> exact ⟨by decide, by decide⟩
+    | false =>
+      simp only [Arg.text, wordFalse, List.mem_cons, List.not_mem_nil, or_false] at hx
+      rcases hx with rfl | rfl | rfl | rfl | rfl <;> exact ⟨by decide, by decide⟩
+
+theorem asc_sepArgs : ∀ (as : List Arg), (∀ a ∈ as, a.OK) → Asc (sepArgs as) := by
+  intro as
+  induction as with
+  | nil => intro _ b hb; have : b = 41 := by simpa [sepArgs] using hb
+           subst this; exact ⟨by decide, by decide⟩
+  | cons a t ih =>
+    intro h b hb
+    simp only [sepArgs, List.mem_cons, List.mem_append] at hb
+    rcases hb with rfl | hb | hb
+    · exact ⟨by decide, by decide⟩
+    · exact asc_argText a (h a (by simp)) b hb
+    · exact ih (fun x hx => h x (List.mem_cons_of_mem _ hx)) b hb
+
+theorem asc_argsText (as : List Arg) (h : ∀ a ∈ as, a.OK) : Asc (argsText as) := by
+  cases as with
+  | nil => intro b hb; have : b = 41 := by simpa [argsText] using hb
+           subst this; exact ⟨by decide, by decide⟩
+  | cons a t =>
+    intro b hb
+    simp only [argsText, List.mem_append] at hb
+    rcases hb with hb | hb
+    · exact asc_argText a (h a (by simp)) b hb
+    · exact asc_sepArgs t (fun x hx => h x (List.mem_cons_of_mem _ hx)) b hb
+
+/-- one step of a path: a key (with or without `?`), a call without arguments, a call with literal arguments -/
 inductive Seg where
   | key (k : Bytes) (m : Bool)
   | call (name : Bytes)
   | callS (name : Bytes) (arg : Bytes)   -- a call with one string literal
+  | callA (name : Bytes) (args : List Arg)   -- a call with any number of string and truth-value literals
 
 def Seg.text : Seg → Bytes
   | .key k m => tokB (k, m)
   | .call n => n ++ [40, 41]
   | .callS n a => n ++ (40 :: 34 :: (Mp.escape a ++ [34, 41]))
+  | .callA n as => n ++ (40 :: argsText as)
 
 /-- as the parser builds it: the key without its mark, the mark as a flag, the text as written; for a call the name, the
     "unknown function" flag as the parser computes it from the name, no parameters -/
@@ -33,11 +132,24 @@ def Seg.part : Seg → PathPart
   | .key k m => .ident k m (tokB (k, m))
   | .call n => .func (!(knownFuncs.map str).contains n) n [] (n ++ [40, 41])
   | .callS n a => .func (!(knownFuncs.map str).contains n) n [.str a] (n ++ (40 :: 34 :: (Mp.escape a ++ [34, 41])))
+  | .callA n as => .func (!(knownFuncs.map str).contains n) n (as.map Arg.param) (n ++ (40 :: argsText as))
 
 def Seg.OK (T : Tables) : Seg → Prop
   | .key k _ => Key T k
   | .call n => Key T n
   | .callS n a => Key T n ∧ Lit a
+  | .callA n as => Key T n ∧ ∀ a ∈ as, a.OK
+
+/-- how many arguments a step carries (the parser's fuel is counted against it) -/
+def Seg.nargs : Seg → Nat
+  | .callA _ as => as.length
+  | .callS _ _ => 1
+  | _ => 0
+
+/-- the fuel the path loop needs from the token after a step on -/
+def need : List Seg → Nat
+  | [] => 1
+  | sg :: ss => max (need ss + 2) (2 * sg.nargs + 5)
 
 /-- the text after `$`: `.k₁.k₂?.Count()…` -/
 def restK : List Seg → Bytes
@@ -89,6 +201,13 @@ theorem asc_seg {T : Tables} (hm : MarkOK T) (sg : Seg) (h : sg.OK T) : Asc sg.t
     · exact ⟨by decide, by decide⟩
     · exact ⟨by decide, by decide⟩
     · cases hb
+  | callA n as =>
+    intro b hb
+    simp only [Seg.text, List.mem_append, List.mem_cons] at hb
+    rcases hb with hb | rfl | hb
+    · exact ⟨(h.1.2 b hb).asc, (h.1.2 b hb).nz⟩
+    · exact ⟨by decide, by decide⟩
+    · exact asc_argsText as h.2 b hb
 
 theorem asc_restK {T : Tables} (hm : MarkOK T) : ∀ (ss : List Seg), (∀ sg ∈ ss, sg.OK T) → Asc (restK ss) := by
   intro ss
@@ -205,6 +324,208 @@ theorem parseFunc_callS (T : Tables) (hT : PunctOK T) (hm : MarkOK T) (hp : Pare
   rw [scan_restK T hT hm [41] e ss hss]
   simp [List.append_assoc]
 
+
+/-! ### calls with any number of literal arguments -/
+
+theorem str_true : str "true" = wordTrue := by with_unfolding_all decide
+theorem str_false : str "false" = wordFalse := by with_unfolding_all decide
+
+/-- the token the argument loop holds after an argument, when `sepArgs t ++ rest` is still to be read -/
+def tokSep (e : Nat) (rest : Bytes) : List Arg → TokKind × Sc
+  | [] => (.rune 41, mkS [41] e rest)
+  | a :: t => (.rune 44, mkS [44] e (a.text ++ (sepArgs t ++ rest)))
+
+/-- the token of an argument, when `sepArgs t ++ rest` follows it -/
+def tokArg (e : Nat) (rest : Bytes) (a : Arg) (t : List Arg) : TokKind × Sc :=
+  match a with
+  | .s x => (.str, mkS (34 :: (Mp.escape x ++ [34])) e (sepArgs t ++ rest))
+  | .b true => (.ident, mkS wordTrue e (sepArgs t ++ rest))
+  | .b false => (.ident, mkS wordFalse e (sepArgs t ++ rest))
+
+theorem asc_sepRest (t : List Arg) (ht : ∀ a ∈ t, a.OK) (rest : Bytes) (hr : Asc rest) : Asc (sepArgs t ++ rest) := by
+  intro b hb
+  rcases List.mem_append.mp hb with h | h
+  · exact asc_sepArgs t ht b h
+  · exact hr b h
+
+theorem stopAt_sepRest (T : Tables) (t : List Arg) (rest : Bytes) : StopAt T (sepArgs t ++ rest) := by
+  cases t with
+  | nil => exact ⟨not_ident_41 T, by decide⟩
+  | cons a t => exact ⟨not_ident_44 T, by decide⟩
+
+theorem scan_sep (T : Tables) (hp : ParenOK T) (hA : ArgOK T) (tok : Bytes) (e : Nat) (rest : Bytes) (hr : Asc rest)
+    (t : List Arg) (ht : ∀ a ∈ t, a.OK) : scan T (mkS tok e (sepArgs t ++ rest)) = tokSep e rest t := by
+  cases t with
+  | nil =>
+    exact scan_rparen T hp _ e rest (sxPrep_mkS tok e (41 :: rest) (show isWs ((41 : UInt8).toNat : Int) = false from by decide)) hr
+  | cons a t =>
+    have ha : Asc (a.text ++ (sepArgs t ++ rest)) := by
+      intro b hb
+      rcases List.mem_append.mp hb with h | h
+      · exact asc_argText a (ht a (by simp)) b h
+      · exact asc_sepRest t (fun x hx => ht x (List.mem_cons_of_mem _ hx)) rest hr b h
+    have hform : sepArgs (a :: t) ++ rest = 44 :: (a.text ++ (sepArgs t ++ rest)) := by simp [sepArgs, List.append_assoc]
+    rw [hform]
+    exact scan_comma T hA _ e _ (sxPrep_mkS tok e _ (show isWs ((44 : UInt8).toNat : Int) = false from by decide)) ha
+
+theorem scan_arg (T : Tables) (hA : ArgOK T) (tok : Bytes) (e : Nat) (rest : Bytes) (hr : Asc rest) (a : Arg) (ha : a.OK)
+    (t : List Arg) (ht : ∀ x ∈ t, x.OK) :
+    scan T (mkS tok e (a.text ++ (sepArgs t ++ rest))) = tokArg e rest a t := by
+  have hsr := asc_sepRest t ht rest hr
+  cases a with
+  | s x =>
+    have hform : (Arg.s x).text ++ (sepArgs t ++ rest) = 34 :: (Mp.escape x ++ 34 :: (sepArgs t ++ rest)) := by
+      simp [Arg.text, List.append_assoc]
+    rw [hform]
+    exact scan_string T x _ e (sepArgs t ++ rest) ha hsr
+      (sxPrep_mkS tok e _ (show isWs ((34 : UInt8).toNat : Int) = false from by decide))
+  | b v =>
+    cases v with
+    | true =>
+      have hidb : ∀ x ∈ (116 : UInt8) :: [114, 117, 101], IdB T x := fun x hx => hA.word x (List.mem_append_left _ hx)
+      have hall : Asc ((116 : UInt8) :: [114, 117, 101] ++ (sepArgs t ++ rest)) := by
+        intro b hb
+        rcases List.mem_append.mp hb with h | h
+        · exact ⟨(hidb b h).asc, (hidb b h).nz⟩
+        · exact hsr b h
+      exact scan_ident T _ e 116 [114, 117, 101] (sepArgs t ++ rest)
+        (sxPrep_mkS tok e _ (hidb 116 List.mem_cons_self).notWs) hidb (stopAt_sepRest T t rest) hall
+    | false =>
+      have hidb : ∀ x ∈ (102 : UInt8) :: [97, 108, 115, 101], IdB T x := fun x hx => hA.word x (List.mem_append_right _ hx)
+      have hall : Asc ((102 : UInt8) :: [97, 108, 115, 101] ++ (sepArgs t ++ rest)) := by
+        intro b hb
+        rcases List.mem_append.mp hb with h | h
+        · exact ⟨(hidb b h).asc, (hidb b h).nz⟩
+        · exact hsr b h
+      exact scan_ident T _ e 102 [97, 108, 115, 101] (sepArgs t ++ rest)
+        (sxPrep_mkS tok e _ (hidb 102 List.mem_cons_self).notWs) hidb (stopAt_sepRest T t rest) hall
+
+/-- THE ARGUMENT LOOP: from the token after an argument (first half) and from the token of an argument (second half) to the
+    token after the closing parenthesis; the parameters are the literals, in order -/
+theorem funcLoop_args (T : Tables) (hT : PunctOK T) (hm : MarkOK T) (hp : ParenOK T) (hA : ArgOK T) (e : Nat) (inv : Bool)
+    (name : Bytes) (ss : List Seg) (hss : ∀ sg ∈ ss, sg.OK T) :
+    ∀ (t : List Arg), (∀ a ∈ t, a.OK) →
+      (∀ (F : Nat) (ps : List Param) (us : Bytes), 2 * t.length + 1 ≤ F →
+        funcLoop T F inv name ps us (tokSep e (restK ss) t).1 (tokSep e (restK ss) t).2 =
+          .ok (.func inv name (ps.reverse ++ t.map Arg.param) (us ++ sepArgs t)) (tokOf e ss).1 (tokOf e ss).2) ∧
+      (∀ (a : Arg), a.OK → ∀ (F : Nat) (ps : List Param) (us : Bytes), 2 * t.length + 2 ≤ F →
+        funcLoop T F inv name ps us (tokArg e (restK ss) a t).1 (tokArg e (restK ss) a t).2 =
+          .ok (.func inv name (ps.reverse ++ (a :: t).map Arg.param) (us ++ a.text ++ sepArgs t)) (tokOf e ss).1 (tokOf e ss).2) := by
+  have har : Asc (restK ss) := asc_restK hm ss hss
+  -- the second half follows from the first for the same `t`
+  have second : ∀ (t : List Arg), (∀ a ∈ t, a.OK) →
+      (∀ (F : Nat) (ps : List Param) (us : Bytes), 2 * t.length + 1 ≤ F →
+        funcLoop T F inv name ps us (tokSep e (restK ss) t).1 (tokSep e (restK ss) t).2 =
+          .ok (.func inv name (ps.reverse ++ t.map Arg.param) (us ++ sepArgs t)) (tokOf e ss).1 (tokOf e ss).2) →
+      (∀ (a : Arg), a.OK → ∀ (F : Nat) (ps : List Param) (us : Bytes), 2 * t.length + 2 ≤ F →
+        funcLoop T F inv name ps us (tokArg e (restK ss) a t).1 (tokArg e (restK ss) a t).2 =
+          .ok (.func inv name (ps.reverse ++ (a :: t).map Arg.param) (us ++ a.text ++ sepArgs t)) (tokOf e ss).1 (tokOf e ss).2) := by
+    intro t ht first a ha F ps us hF
+    match F, hF with
+    | f + 1, hF =>
+      cases a with
+      | s x =>
+        unfold funcLoop
+        simp only [tokArg]
+        have htt : (mkS (34 :: (Mp.escape x ++ [34])) e (sepArgs t ++ restK ss)).tok = 34 :: (Mp.escape x ++ [34]) := by
+          cases h : sepArgs t ++ restK ss <;> rfl
+        simp only [htt, unescape_token x ha]
+        rw [scan_sep T hp hA _ e (restK ss) har t ht]
+        rw [first f _ _ (by omega)]
+        simp [Arg.param, Arg.text, List.append_assoc]
+      | b v =>
+        cases v with
+        | true =>
+          unfold funcLoop
+          simp only [tokArg]
+          have htt : (mkS wordTrue e (sepArgs t ++ restK ss)).tok = wordTrue := by
+            cases h : sepArgs t ++ restK ss <;> rfl
+          have h1 : (wordTrue == str "true") = true := by rw [str_true]; decide
+          simp only [htt, h1, if_true]
+          rw [scan_sep T hp hA _ e (restK ss) har t ht]
+          rw [first f _ _ (by omega)]
+          simp [Arg.param, Arg.text, List.append_assoc]
+        | false =>
+          unfold funcLoop
+          simp only [tokArg]
+          have htt : (mkS wordFalse e (sepArgs t ++ restK ss)).tok = wordFalse := by
+            cases h : sepArgs t ++ restK ss <;> rfl
+          have h1 : (wordFalse == str "true") = false := by rw [str_true]; decide
+          have h2 : (wordFalse == str "false") = true := by rw [str_false]; decide
+          simp only [htt, h1, h2, if_true, Bool.false_eq_true, if_false]
+          rw [scan_sep T hp hA _ e (restK ss) har t ht]
+          rw [first f _ _ (by omega)]
+          simp [Arg.param, Arg.text, List.append_assoc]
+  intro t
+  induction t with
+  | nil =>
+    intro ht
+    have first : ∀ (F : Nat) (ps : List Param) (us : Bytes), 2 * ([] : List Arg).length + 1 ≤ F →
+        funcLoop T F inv name ps us (tokSep e (restK ss) []).1 (tokSep e (restK ss) []).2 =
+          .ok (.func inv name (ps.reverse ++ ([] : List Arg).map Arg.param) (us ++ sepArgs [])) (tokOf e ss).1 (tokOf e ss).2 := by
+      intro F ps us hF
+      match F, hF with
+      | f + 1, _ =>
+        unfold funcLoop
+        simp only [tokSep]
+        have h44 : ((41 : Nat) == 44) = false := by decide
+        simp only [h44, Bool.false_eq_true, if_false, beq_self_eq_true, if_true]
+        rw [scan_restK T hT hm [41] e ss hss]
+        simp [sepArgs]
+    exact ⟨first, second [] ht first⟩
+  | cons a t ih =>
+    intro ht
+    have hta : a.OK := ht a (by simp)
+    have htt : ∀ x ∈ t, x.OK := fun x hx => ht x (List.mem_cons_of_mem _ hx)
+    obtain ⟨_, ihArg⟩ := ih htt
+    have first : ∀ (F : Nat) (ps : List Param) (us : Bytes), 2 * (a :: t).length + 1 ≤ F →
+        funcLoop T F inv name ps us (tokSep e (restK ss) (a :: t)).1 (tokSep e (restK ss) (a :: t)).2 =
+          .ok (.func inv name (ps.reverse ++ (a :: t).map Arg.param) (us ++ sepArgs (a :: t))) (tokOf e ss).1 (tokOf e ss).2 := by
+      intro F ps us hF
+      match F, hF with
+      | f + 1, hF =>
+        unfold funcLoop
+        simp only [tokSep]
+        simp only [beq_self_eq_true, if_true]
+        rw [scan_arg T hA [44] e (restK ss) har a hta t htt]
+        rw [ihArg a hta f ps (us ++ [44]) (by simp at hF; omega)]
+        simp [sepArgs, List.append_assoc]
+    exact ⟨first, second (a :: t) ht first⟩
+
+
+/-- a call with literal arguments: from the name token (look-ahead `(`) to the token after `)` -/
+theorem parseFunc_callA (T : Tables) (hT : PunctOK T) (hm : MarkOK T) (hp : ParenOK T) (hA : ArgOK T) (e : Nat) (n : Bytes)
+    (as : List Arg) (ss : List Seg) (f : Nat) (hss : ∀ sg ∈ ss, sg.OK T) (has : ∀ a ∈ as, a.OK) :
+    parseFunc T (f + 2 * as.length + 2) (mkS n e (40 :: (argsText as ++ restK ss))) =
+      .ok (.func (!(knownFuncs.map str).contains n) n (as.map Arg.param) (n ++ (40 :: argsText as))) (tokOf e ss).1 (tokOf e ss).2 := by
+  have har : Asc (restK ss) := asc_restK hm ss hss
+  have hall : Asc (argsText as ++ restK ss) := by
+    intro b hb
+    rcases List.mem_append.mp hb with h | h
+    · exact asc_argsText as has b h
+    · exact har b h
+  have hfu : f + 2 * as.length + 2 = (f + 2 * as.length + 1) + 1 := rfl
+  rw [hfu]
+  unfold parseFunc
+  have hch : ((mkS n e (40 :: (argsText as ++ restK ss))).ch != 40) = false := by simp [mkS]
+  have htok : (mkS n e (40 :: (argsText as ++ restK ss))).tok = n := rfl
+  simp only [hch, Bool.false_eq_true, if_false, htok]
+  rw [scan_lparen T hp _ e _ (sxPrep_mkS n e _ (show isWs ((40 : UInt8).toNat : Int) = false from by decide)) hall]
+  simp only [lparen_bytes]
+  cases as with
+  | nil =>
+    have hform : argsText ([] : List Arg) ++ restK ss = sepArgs [] ++ restK ss := rfl
+    rw [hform, scan_sep T hp hA [40] e (restK ss) har [] (by simp)]
+    rw [(funcLoop_args T hT hm hp hA e (!(knownFuncs.map str).contains n) n ss hss [] (by simp)).1 _ [] (n ++ [40]) (by simp)]
+    simp [argsText, sepArgs]
+  | cons a t =>
+    have hta : a.OK := has a (by simp)
+    have htt : ∀ x ∈ t, x.OK := fun x hx => has x (List.mem_cons_of_mem _ hx)
+    have hform : argsText (a :: t) ++ restK ss = a.text ++ (sepArgs t ++ restK ss) := by simp [argsText, List.append_assoc]
+    rw [hform, scan_arg T hA [40] e (restK ss) har a hta t htt]
+    rw [(funcLoop_args T hT hm hp hA e (!(knownFuncs.map str).contains n) n ss hss t htt).2 a hta _ [] (n ++ [40]) (by simp; omega)]
+    simp [argsText, List.append_assoc]
+
 theorem pathLoop_callS_step (T : Tables) (hT : PunctOK T) (hm : MarkOK T) (hp : ParenOK T) (root : Bool) (e : Nat) (n a : Bytes) (ss : List Seg) (g : Nat)
     (ops : List PathPart) (us : Bytes) (hk : Key T n) (hl : Lit a) (hrest : ∀ x ∈ ss, x.OK T)
     (ih : pathLoop T (g + 3) root false false ((Seg.callS n a).part :: ops) (us ++ [46] ++ (Seg.callS n a).part.us) (tokOf e ss).1 (tokOf e ss).2 =
@@ -247,14 +568,15 @@ theorem pathLoop_callS_step (T : Tables) (hT : PunctOK T) (hm : MarkOK T) (hp : 
   simp [keyParts, restK, Seg.part, Seg.text, List.append_assoc]
 
 /-- the loop over the steps: from the token after `$` (or after a step) to the end of the input -/
-theorem pathLoop_keys (T : Tables) (hT : PunctOK T) (hm : MarkOK T) (hp : ParenOK T) (root : Bool) (e : Nat) : ∀ (ss : List Seg) (F : Nat) (ops : List PathPart) (us : Bytes),
-    (∀ sg ∈ ss, sg.OK T) → 2 * ss.length + 4 ≤ F →
+theorem pathLoop_keys (T : Tables) (hT : PunctOK T) (hm : MarkOK T) (hp : ParenOK T) (hA : ArgOK T) (root : Bool) (e : Nat) : ∀ (ss : List Seg) (F : Nat) (ops : List PathPart) (us : Bytes),
+    (∀ sg ∈ ss, sg.OK T) → need ss ≤ F →
     pathLoop T F root false false ops us (tokOf e ss).1 (tokOf e ss).2 =
       .ok (.mk false root false false (ops.reverse ++ keyParts ss) (us ++ restK ss)) (.rune 0) (mkS [] e []) := by
   intro ss
   induction ss with
   | nil =>
     intro F ops us _ hF
+    have hn : need ([] : List Seg) = 1 := rfl
     cases F with
     | zero => omega
     | succ f =>
@@ -264,6 +586,8 @@ theorem pathLoop_keys (T : Tables) (hT : PunctOK T) (hm : MarkOK T) (hp : ParenO
     intro F ops us hss hF
     have hsg := hss sg (by simp)
     have hrest : ∀ x ∈ ss, x.OK T := fun x hx => hss x (List.mem_cons_of_mem _ hx)
+    have hF1 : need ss + 2 ≤ F := Nat.le_trans (Nat.le_max_left _ _) hF
+    have hF2 : 2 * sg.nargs + 5 ≤ F := Nat.le_trans (Nat.le_max_right _ _) hF
     cases sg with
     | key k m =>
       have hk : Key T k := hsg
@@ -277,26 +601,25 @@ theorem pathLoop_keys (T : Tables) (hT : PunctOK T) (hm : MarkOK T) (hp : ParenO
         rcases List.mem_append.mp hx with h | h
         · exact asc_of_idb hidb x (hbk ▸ h)
         · exact asc_restK hm ss hrest x h
-      match F, hF with
-      | f + 2, hF =>
-        unfold pathLoop
-        simp only [tokOf, Seg.text, hbk]
-        have hscan := scan_ident T (mkS [46] e (b :: k' ++ restK ss)) e b k' (restK ss)
-          (sxPrep_mkS [46] e _ (hidb b (hbk ▸ List.mem_cons_self)).notWs) (hbk ▸ hidb) (stopAt_restK T ss) ha
-        simp only [beq_self_eq_true, if_true, hscan]
-        unfold pathLoop
-        have hch : ((mkS (b :: k') e (restK ss)).ch == 40) = false := by
-          cases ss with
-          | nil => simp [restK, mkS]
-          | cons k2 ks2 => simp [restK, mkS]
-        have htok : (mkS (b :: k') e (restK ss)).tok = b :: k' := by cases h : restK ss <;> rfl
-        simp only [hch, Bool.false_eq_true, if_false, htok]
-        have hsplit := split_mark (k, m) hk
-        rw [hbk] at hsplit
-        simp only [splitMark, hsplit]
-        rw [scan_restK T hT hm (b :: k') e ss hrest]
-        rw [ih f (.ident k m (b :: k') :: ops) (us ++ [46] ++ (b :: k')) hrest (by simp at hF; omega)]
-        simp [keyParts, restK, Seg.part, Seg.text, hbk, List.append_assoc]
+      obtain ⟨f, rfl⟩ : ∃ f, F = f + 2 := ⟨F - 2, by simp only [Seg.nargs] at hF2; omega⟩
+      unfold pathLoop
+      simp only [tokOf, Seg.text, hbk]
+      have hscan := scan_ident T (mkS [46] e (b :: k' ++ restK ss)) e b k' (restK ss)
+        (sxPrep_mkS [46] e _ (hidb b (hbk ▸ List.mem_cons_self)).notWs) (hbk ▸ hidb) (stopAt_restK T ss) ha
+      simp only [beq_self_eq_true, if_true, hscan]
+      unfold pathLoop
+      have hch : ((mkS (b :: k') e (restK ss)).ch == 40) = false := by
+        cases ss with
+        | nil => simp [restK, mkS]
+        | cons k2 ks2 => simp [restK, mkS]
+      have htok : (mkS (b :: k') e (restK ss)).tok = b :: k' := by cases h : restK ss <;> rfl
+      simp only [hch, Bool.false_eq_true, if_false, htok]
+      have hsplit := split_mark (k, m) hk
+      rw [hbk] at hsplit
+      simp only [splitMark, hsplit]
+      rw [scan_restK T hT hm (b :: k') e ss hrest]
+      rw [ih f (.ident k m (b :: k') :: ops) (us ++ [46] ++ (b :: k')) hrest (by omega)]
+      simp [keyParts, restK, Seg.part, Seg.text, hbk, List.append_assoc]
     | call n =>
       have hk : Key T n := hsg
       have hidb : ∀ x ∈ n, IdB T x := fun x hx => (hk.2 x hx).toIdB
@@ -314,28 +637,63 @@ theorem pathLoop_keys (T : Tables) (hT : PunctOK T) (hm : MarkOK T) (hp : ParenO
           · exact ⟨by decide, by decide⟩
           · exact ⟨by decide, by decide⟩
           · exact har x h
-      match F, hF with
-      | f + 4, hF =>
-        unfold pathLoop
-        simp only [tokOf, Seg.text]
-        have htext : (b :: n') ++ [40, 41] ++ restK ss = b :: n' ++ (40 :: 41 :: restK ss) := by simp
-        rw [htext]
-        have hscan := scan_ident T (mkS [46] e (b :: n' ++ (40 :: 41 :: restK ss))) e b n' (40 :: 41 :: restK ss)
-          (sxPrep_mkS [46] e _ (hidb b List.mem_cons_self).notWs) hidb ⟨not_ident_40 T, by decide⟩ hacall
-        simp only [beq_self_eq_true, if_true, hscan]
-        unfold pathLoop
-        have hch : ((mkS (b :: n') e (40 :: 41 :: restK ss)).ch == 40) = true := by simp [mkS]
-        simp only [hch, if_true]
-        rw [parseFunc_call0 T hT hm hp e (b :: n') ss f hrest]
-        simp only []
-        rw [ih (f + 2) _ _ hrest (by simp at hF; omega)]
-        simp [keyParts, restK, Seg.part, Seg.text, PathPart.us, List.append_assoc]
+      obtain ⟨f, rfl⟩ : ∃ f, F = f + 4 := ⟨F - 4, by simp only [Seg.nargs] at hF2; omega⟩
+      unfold pathLoop
+      simp only [tokOf, Seg.text]
+      have htext : (b :: n') ++ [40, 41] ++ restK ss = b :: n' ++ (40 :: 41 :: restK ss) := by simp
+      rw [htext]
+      have hscan := scan_ident T (mkS [46] e (b :: n' ++ (40 :: 41 :: restK ss))) e b n' (40 :: 41 :: restK ss)
+        (sxPrep_mkS [46] e _ (hidb b List.mem_cons_self).notWs) hidb ⟨not_ident_40 T, by decide⟩ hacall
+      simp only [beq_self_eq_true, if_true, hscan]
+      unfold pathLoop
+      have hch : ((mkS (b :: n') e (40 :: 41 :: restK ss)).ch == 40) = true := by simp [mkS]
+      simp only [hch, if_true]
+      rw [parseFunc_call0 T hT hm hp e (b :: n') ss f hrest]
+      simp only []
+      rw [ih (f + 2) _ _ hrest (by omega)]
+      simp [keyParts, restK, Seg.part, Seg.text, PathPart.us, List.append_assoc]
     | callS n a =>
-      match F, hF with
-      | g + 5, hF =>
-        simp only [tokOf]
-        exact pathLoop_callS_step T hT hm hp root e n a ss g ops us hsg.1 hsg.2 hrest
-          (ih (g + 3) _ _ hrest (by simp at hF; omega))
+      obtain ⟨g, rfl⟩ : ∃ g, F = g + 5 := ⟨F - 5, by simp only [Seg.nargs] at hF2; omega⟩
+      simp only [tokOf]
+      exact pathLoop_callS_step T hT hm hp root e n a ss g ops us hsg.1 hsg.2 hrest
+        (ih (g + 3) _ _ hrest (by omega))
+    | callA n as =>
+      have hk : Key T n := hsg.1
+      have has : ∀ a ∈ as, a.OK := hsg.2
+      have hidb : ∀ x ∈ n, IdB T x := fun x hx => (hk.2 x hx).toIdB
+      obtain ⟨b, n', rfl⟩ : ∃ b n', n = b :: n' := by
+        cases n with
+        | nil => exact absurd rfl hk.1
+        | cons b n' => exact ⟨b, n', rfl⟩
+      have har : Asc (restK ss) := asc_restK hm ss hrest
+      have hacall : Asc (b :: n' ++ (40 :: (argsText as ++ restK ss))) := by
+        intro x hx
+        simp only [List.mem_append, List.mem_cons] at hx
+        rcases hx with (rfl | h) | rfl | h | h
+        · exact ⟨(hidb _ List.mem_cons_self).asc, (hidb _ List.mem_cons_self).nz⟩
+        · exact ⟨(hidb x (List.mem_cons_of_mem _ h)).asc, (hidb x (List.mem_cons_of_mem _ h)).nz⟩
+        · exact ⟨by decide, by decide⟩
+        · exact asc_argsText as has x h
+        · exact har x h
+      obtain ⟨g, rfl⟩ : ∃ g, F = g + 2 * as.length + 4 := ⟨F - (2 * as.length + 4), by simp only [Seg.nargs] at hF2; omega⟩
+      have hfu : g + 2 * as.length + 4 = (g + 2 * as.length + 3) + 1 := rfl
+      rw [hfu]
+      unfold pathLoop
+      simp only [tokOf]
+      have htext : (Seg.callA (b :: n') as).text ++ restK ss = b :: n' ++ (40 :: (argsText as ++ restK ss)) := by simp [Seg.text]
+      rw [htext]
+      have hscan := scan_ident T (mkS [46] e (b :: n' ++ (40 :: (argsText as ++ restK ss)))) e b n' (40 :: (argsText as ++ restK ss))
+        (sxPrep_mkS [46] e _ (hidb b List.mem_cons_self).notWs) hidb ⟨not_ident_40 T, by decide⟩ hacall
+      simp only [beq_self_eq_true, if_true, hscan]
+      have hfu2 : g + 2 * as.length + 3 = (g + 2 * as.length + 2) + 1 := rfl
+      rw [hfu2]
+      unfold pathLoop
+      have hch : ((mkS (b :: n') e (40 :: (argsText as ++ restK ss))).ch == 40) = true := by simp [mkS]
+      simp only [hch, if_true]
+      rw [parseFunc_callA T hT hm hp hA e (b :: n') as ss g hrest has]
+      simp only []
+      rw [ih (g + 2 * as.length + 2) _ _ hrest (by omega)]
+      simp [keyParts, restK, Seg.part, Seg.text, PathPart.us, List.append_assoc]
 
 theorem restK_length_ge {T : Tables} : ∀ (ss : List Seg), (∀ sg ∈ ss, sg.OK T) → 2 * ss.length ≤ (restK ss).length := by
   intro ss
@@ -349,8 +707,55 @@ theorem restK_length_ge {T : Tables} : ∀ (ss : List Seg), (∀ sg ∈ ss, sg.O
       | key k m => exact List.length_pos_iff.mpr (tokB_ne_nil (km := (k, m)) hk)
       | call n => simp [Seg.text]
       | callS n a => simp [Seg.text]; omega
+      | callA n as => simp [Seg.text]; omega
     have := ih (fun x hx => h x (List.mem_cons_of_mem _ hx))
     simp [restK]; omega
+
+
+theorem sepArgs_length (as : List Arg) : 2 * as.length + 1 ≤ (sepArgs as).length := by
+  induction as with
+  | nil => simp [sepArgs]
+  | cons a t ih =>
+    have h1 : 1 ≤ a.text.length := by
+      cases a with
+      | s x => simp [Arg.text]
+      | b v => cases v <;> simp [Arg.text, wordTrue, wordFalse]
+    simp only [sepArgs, List.length_cons, List.length_append]
+    omega
+
+theorem argsText_length (as : List Arg) : 2 * as.length + 1 ≤ (argsText as).length := by
+  cases as with
+  | nil => simp [argsText]
+  | cons a t =>
+    have h1 : 2 ≤ a.text.length := by
+      cases a with
+      | s x => simp [Arg.text]
+      | b v => cases v <;> simp [Arg.text, wordTrue, wordFalse]
+    have := sepArgs_length t
+    simp only [argsText, List.length_cons, List.length_append]
+    omega
+
+/-- the fuel the parser hands the path loop (twice the text and some) covers what the loop needs -/
+theorem need_le {T : Tables} : ∀ (ss : List Seg), (∀ sg ∈ ss, sg.OK T) → need ss ≤ 2 * (restK ss).length + 4 := by
+  intro ss
+  induction ss with
+  | nil => intro _; simp [need]
+  | cons sg ss ih =>
+    intro h
+    have hk := h sg (by simp)
+    have := ih (fun x hx => h x (List.mem_cons_of_mem _ hx))
+    have h1 : 1 ≤ sg.text.length ∧ 2 * sg.nargs + 1 ≤ 2 * sg.text.length := by
+      cases sg with
+      | key k m => exact ⟨List.length_pos_iff.mpr (tokB_ne_nil (km := (k, m)) hk), by
+          have := List.length_pos_iff.mpr (tokB_ne_nil (km := (k, m)) hk); simp [Seg.nargs, Seg.text]; omega⟩
+      | call n => simp [Seg.text, Seg.nargs]; omega
+      | callS n a => simp [Seg.text, Seg.nargs]; omega
+      | callA n as =>
+        have := argsText_length as
+        simp [Seg.text, Seg.nargs]; omega
+    simp only [need, restK, List.length_cons, List.length_append]
+    apply Nat.max_le.mpr
+    constructor <;> omega
 
 theorem str_dollar : str "$" = [36] := by with_unfolding_all decide
 theorem str_at : str "@" = [64] := by with_unfolding_all decide
@@ -375,6 +780,27 @@ theorem scan_at (T : Tables) (hT : AtOK T) (s : Sc) (e : Nat) (t : Bytes) (hprep
   have hp : T.isPrint 64 = true := hT
   simp [h1, hp]
 
+
+theorem sprintParams_args (as : List Arg) : sprintParams (as.map Arg.param) ++ [41] = argsText as := by
+  have hp : ∀ a : Arg, sprintParam a.param = a.text := by
+    intro a
+    cases a with
+    | s x => simp [Arg.param, Arg.text, sprintParam]
+    | b v => cases v <;> simp [Arg.param, Arg.text, sprintParam, str_true, str_false]
+  have hsep : ∀ (a : Arg) (t : List Arg), sprintParams ((a :: t).map Arg.param) ++ [41] = a.text ++ sepArgs t := by
+    intro a t
+    induction t generalizing a with
+    | nil => simp [sprintParams, sepArgs, hp]
+    | cons b t ih =>
+      have := ih b
+      simp only [List.map_cons] at this ⊢
+      simp only [sprintParams, sepArgs, hp, List.append_assoc]
+      rw [this]
+      simp
+  cases as with
+  | nil => simp [sprintParams, argsText]
+  | cons a t => simpa [argsText] using hsep a t
+
 /-- the printed form: `$` (or `@`) followed by `.key`, `.key?`, `.Name()` or `.Name("…")` for every step -/
 theorem sprint_keyPath (root : Bool) (ss : List Seg) : sprintPath 0 (keyPath root ss) = rootB root :: restK ss := by
   have hparts : ∀ ss : List Seg, sprintParts 0 (keyParts ss) = restK ss := by
@@ -388,13 +814,20 @@ theorem sprint_keyPath (root : Bool) (ss : List Seg) : sprintPath 0 (keyPath roo
       | key k m => cases m <;> simp [Seg.part, Seg.text, sprintPart, restK, tokB]
       | call n => simp [Seg.part, Seg.text, sprintPart, restK, sprintParams]
       | callS n a => simp [Seg.part, Seg.text, sprintPart, restK, sprintParams, sprintParam]
+      | callA n as =>
+        have hsp := sprintParams_args as
+        simp only [Seg.part, Seg.text, sprintPart, restK]
+        have : sprintParams (List.map Arg.param as) ++ ([41] ++ restK ss) = argsText as ++ restK ss := by
+          rw [← List.append_assoc, hsp]
+        simp only [List.append_assoc, this]
+        simp
   unfold keyPath sprintPath
   rw [hparts]
   cases root <;> simp [tabs, str_dollar, str_at, rootB]
 
 /-- PARSING THE PRINTED PATH GIVES THE PATH BACK: same root, same keys, same `?` marks, same calls, same string values, same
     recorded text -/
-theorem parse_sprint_keyPath (T : Tables) (hT : PunctOK T) (hat : AtOK T) (hm : MarkOK T) (hp : ParenOK T) (root : Bool) (ss : List Seg)
+theorem parse_sprint_keyPath (T : Tables) (hT : PunctOK T) (hat : AtOK T) (hm : MarkOK T) (hp : ParenOK T) (hA : ArgOK T) (root : Bool) (ss : List Seg)
     (hss : ∀ sg ∈ ss, sg.OK T) :
     (parse T (sprintPath 0 (keyPath root ss))).1 = .op (.path (keyPath root ss)) := by
   rw [sprint_keyPath root ss]
@@ -422,9 +855,9 @@ theorem parse_sprint_keyPath (T : Tables) (hT : PunctOK T) (hat : AtOK T) (hm : 
     simp only [h0, h123, hor, Bool.false_eq_true, if_false, if_true, Option.isSome_none]
     have hpp : parsePath T (2 * (mkS [36] 0 (restK ss)).rest.length + 16) false false (.rune 36) (mkS [36] 0 (restK ss)) =
         .ok (keyPath true ss) (.rune 0) (mkS [] 0 []) := by
-      have hf2 : ∃ f, 2 * (mkS [36] 0 (restK ss)).rest.length + 16 = f + 1 ∧ 2 * ss.length + 4 ≤ f := by
+      have hf2 : ∃ f, 2 * (mkS [36] 0 (restK ss)).rest.length + 16 = f + 1 ∧ need ss ≤ f := by
         refine ⟨2 * (mkS [36] 0 (restK ss)).rest.length + 15, rfl, ?_⟩
-        have := restK_length_ge ss hss
+        have := need_le ss hss
         cases hr : restK ss with
         | nil => rw [hr] at this; simp at this; simp [mkS]; omega
         | cons c t => rw [hr] at this; simp [mkS] at this ⊢; omega
@@ -434,7 +867,7 @@ theorem parse_sprint_keyPath (T : Tables) (hT : PunctOK T) (hat : AtOK T) (hm : 
       have hd : isRune (.rune 36) '$' = true := by decide
       simp only [hd, if_true, Bool.false_eq_true, if_false]
       rw [scan_restK T hT hm [36] 0 ss hss]
-      rw [pathLoop_keys T hT hm hp true 0 ss f [] (str "$") hss hle]
+      rw [pathLoop_keys T hT hm hp hA true 0 ss f [] (str "$") hss hle]
       simp [keyPath, str_dollar, rootB]
     rw [hpp]
     simp only []
@@ -455,9 +888,9 @@ theorem parse_sprint_keyPath (T : Tables) (hT : PunctOK T) (hat : AtOK T) (hm : 
     simp only [h0, h123, hor, Bool.false_eq_true, if_false, if_true, Option.isSome_none]
     have hpp : parsePath T (2 * (mkS [64] 0 (restK ss)).rest.length + 16) false false (.rune 64) (mkS [64] 0 (restK ss)) =
         .ok (keyPath false ss) (.rune 0) (mkS [] 0 []) := by
-      have hf2 : ∃ f, 2 * (mkS [64] 0 (restK ss)).rest.length + 16 = f + 1 ∧ 2 * ss.length + 4 ≤ f := by
+      have hf2 : ∃ f, 2 * (mkS [64] 0 (restK ss)).rest.length + 16 = f + 1 ∧ need ss ≤ f := by
         refine ⟨2 * (mkS [64] 0 (restK ss)).rest.length + 15, rfl, ?_⟩
-        have := restK_length_ge ss hss
+        have := need_le ss hss
         cases hr : restK ss with
         | nil => rw [hr] at this; simp at this; simp [mkS]; omega
         | cons c t => rw [hr] at this; simp [mkS] at this ⊢; omega
@@ -468,7 +901,7 @@ theorem parse_sprint_keyPath (T : Tables) (hT : PunctOK T) (hat : AtOK T) (hm : 
       have hd2 : isRune (.rune 64) '@' = true := by decide
       simp only [hd, hd2, if_true, Bool.false_eq_true, if_false]
       rw [scan_restK T hT hm [64] 0 ss hss]
-      rw [pathLoop_keys T hT hm hp false 0 ss f [] (str "@") hss hle]
+      rw [pathLoop_keys T hT hm hp hA false 0 ss f [] (str "@") hss hle]
       simp [keyPath, str_at, rootB]
     rw [hpp]
     simp only []
@@ -479,16 +912,20 @@ theorem parse_sprint_keyPath (T : Tables) (hT : PunctOK T) (hat : AtOK T) (hm : 
       simp
 
 /-- and so printing is a fixed point on what it printed: print, parse, print again gives the same text -/
-theorem sprint_parse_sprint (T : Tables) (hT : PunctOK T) (hat : AtOK T) (hm : MarkOK T) (hp : ParenOK T) (root : Bool) (ss : List Seg)
+theorem sprint_parse_sprint (T : Tables) (hT : PunctOK T) (hat : AtOK T) (hm : MarkOK T) (hp : ParenOK T) (hA : ArgOK T) (root : Bool) (ss : List Seg)
     (hss : ∀ sg ∈ ss, sg.OK T) :
     ∃ p, (parse T (sprintPath 0 (keyPath root ss))).1 = .op (.path p) ∧ sprintPath 0 p = sprintPath 0 (keyPath root ss) :=
-  ⟨keyPath root ss, parse_sprint_keyPath T hT hat hm hp root ss hss, rfl⟩
+  ⟨keyPath root ss, parse_sprint_keyPath T hT hat hm hp hA root ss hss, rfl⟩
 
 /-- non-vacuity with the ASCII tables: `$.ab.c?.Count()` -/
 example : PunctOK protoTables := ⟨by decide, by decide⟩
 example : AtOK protoTables := by unfold AtOK; decide
 example : ParenOK protoTables := ⟨by decide, by decide⟩
 example : MarkOK protoTables := ⟨by decide, by decide, by decide, by decide⟩
+example : ArgOK protoTables := ⟨by decide, by
+  intro b hb
+  simp only [wordTrue, wordFalse, List.cons_append, List.nil_append, List.mem_cons, List.not_mem_nil, or_false] at hb
+  rcases hb with rfl | rfl | rfl | rfl | rfl | rfl | rfl | rfl | rfl <;> exact ⟨by decide, by decide, by decide, by decide⟩⟩
 example : Key protoTables [97, 98] := ⟨by simp, by
   intro b hb
   have : b = 97 ∨ b = 98 := by simpa using hb
@@ -496,6 +933,9 @@ example : Key protoTables [97, 98] := ⟨by simp, by
 
 #print axioms parseFunc_call0
 #print axioms parseFunc_callS
+#print axioms funcLoop_args
+#print axioms parseFunc_callA
+#print axioms need_le
 #print axioms pathLoop_keys
 #print axioms sprint_keyPath
 #print axioms parse_sprint_keyPath
